@@ -663,12 +663,26 @@ func currentQueue(Q *ssa.Phi, L *flow.Loop, call *ssa.Call, b *ssa.BasicBlock, s
 // derivesFromCall: v is result #0 of call, possibly through phis with other fresh strides and through helpers in
 // scope that hand the stride on (`stride, err = ensureStride(st, stride, err)`).
 func derivesFromCall(v ssa.Value, call *ssa.Call, scope []*ssa.Function) bool {
-	for _, d := range deepDefs(v, scope) {
+	isRes := func(d ssa.Value) bool {
 		if ex, ok := d.(*ssa.Extract); ok && ex.Tuple == ssa.Value(call) && ex.Index == 0 {
 			return true
 		}
-		if d == ssa.Value(call) {
-			return true // the step helper's single result (walkStepSite)
+		return d == ssa.Value(call) // the step helper's single result (walkStepSite)
+	}
+	for _, d := range deepDefs(v, scope) {
+		if isRes(d) {
+			return true
+		}
+		// the stride may be kept in a field of a record that is private to the iteration and that helpers fill
+		// (`attempt := stepAttempt{at: st, stride: stride, err: err}; attempt.ensureStride(); stride = attempt.stride`)
+		if ld, isLd := d.(*ssa.UnOp); isLd && len(scope) > 0 && call.Parent() == scope[0] {
+			if _, isFA := ld.X.(*ssa.FieldAddr); isFA {
+				for _, d2 := range resolveCells(d, scope[0], scope) {
+					if isRes(d2) {
+						return true
+					}
+				}
+			}
 		}
 	}
 	return false
